@@ -78,7 +78,15 @@ func makeMux(dst string, option *ClientOption, dialFn dialFn) *mux {
 		return func(ctx context.Context) (w wire) {
 			w, err := pipeFn(ctx, connFn, option)
 			if err != nil {
-				dead.error.Store(&errs{error: err})
+				// A failed dial is reported through the shared dead wire. A dial that fails while or after the mux
+				// is closed must not replace the ErrClosing that Close has put there (errMuxClosed: the same
+				// error as the dead wire's initial one, told apart by its address).
+				for {
+					old := dead.error.Load()
+					if old == errMuxClosed || dead.error.CompareAndSwap(old, &errs{error: err}) {
+						break
+					}
+				}
 				w = dead
 			}
 			return w
@@ -414,9 +422,12 @@ func (m *mux) Close() {
 	if dead, ok := m.dead.(*pipe); ok {
 		// makeMux reports a failed dial through the shared dead wire's error;
 		// once the mux is closed, calls must fail with ErrClosing again.
-		dead.error.Store(errClosing)
+		dead.error.Store(errMuxClosed)
 	}
 }
+
+// errMuxClosed is what Close leaves in the dead wire: ErrClosing for good.
+var errMuxClosed = &errs{error: ErrClosing}
 
 func (m *mux) Addr() string {
 	return m.dst
